@@ -911,13 +911,12 @@ func fuzz(c *hl.Ctx, r *rand.Rand) error {
 		o := totalgen.Opts{Imports: r.Intn(3) > 0, Size: 2 + r.Intn(10), Depth: 1 + r.Intn(3), Valid: r.Intn(5) == 0}
 		p := totalgen.Gen(r, o)
 		res, us := timed(p.Src, p.Files, 20*time.Second)
-		key := res.outcome + ":" + res.site
-		if res.outcome == "errors" {
-			key = "errors"
+		key := keyOf(res)
+		if key == "errors:badpos" {
 			for _, e := range res.errs {
 				if !e["known"].(bool) || e["slc"].(int) != e["sl"].(int) {
-					key = "errors:badpos"
 					res.msg = fmt.Sprint(e)
+					seen["badpos-msg: "+fmt.Sprint(e["path"], "|", e["msg"])]++
 				}
 			}
 		}
